@@ -234,4 +234,161 @@ theorem pass1_blockBytes : ∀ (n : Nat) (p pre : Bytes) (e : Nat), p.length ≤
           | cons x xs => simp
         · simp [hc]
 
+theorem linesOf_blockBytes : ∀ (n : Nat) (p : Bytes), p.length ≤ n →
+    linesOf (blockBytes n p) = leadingBlock (linesOf p) := by
+  intro n
+  induction n with
+  | zero =>
+    intro p hp
+    have : p = [] := List.eq_nil_of_length_eq_zero (by omega)
+    subst this
+    simp [blockBytes, linesOf_nil, leadingBlock]
+  | succ n ih =>
+    intro p hp
+    unfold blockBytes
+    by_cases hemp : p = []
+    · subst hemp; simp [linesOf_nil, leadingBlock]
+    · have hne : p.isEmpty = false := by cases p <;> simp_all
+      simp only [hne, Bool.false_eq_true, if_false]
+      rcases cutAt_cases 10 p with ⟨l, r, h⟩ | ⟨l, h⟩
+      · have hp' := (cutAt_some h).1
+        have hcl : cutLine p = (l, r) := by simp [cutLine, h]
+        have hrn : r.length ≤ n := by rw [hp'] at hp; simp at hp; omega
+        have hchunk : p.take (p.length - r.length) = l ++ [10] := by
+          have hlen : p.length - r.length = l.length + 1 := by rw [hp']; simp; omega
+          rw [hlen, hp', show l ++ 10 :: r = (l ++ [10]) ++ r by simp, List.take_left' (by simp)]
+        have hcons : ∀ X, linesOf ((l ++ [10]) ++ X) = l :: linesOf X := by
+          intro X
+          have := cutAt_append h X
+          rw [show (l ++ [10]) ++ X = l ++ 10 :: X by simp]
+          exact linesOf_some this
+        rw [hcl, linesOf_some h]
+        simp only [hchunk]
+        unfold leadingBlock
+        simp only [isBlank, isComment]
+        by_cases hb : (trimSpace l).isEmpty = true
+        · simp only [hb, if_true]
+          rw [hcons, ih r hrn]
+        · simp only [hb, Bool.false_eq_true, if_false]
+          by_cases hc : hasPrefix slashes (trimSpace l) = true
+          · simp only [hc, Bool.not_true, Bool.false_eq_true, if_false, if_true]
+            have ihr := ih r hrn
+            cases hbb : blockBytes n r with
+            | nil =>
+              rw [hbb, linesOf_nil] at ihr
+              simp [← ihr, linesOf_nil]
+            | cons x xs =>
+              have hne' : linesOf (x :: xs) ≠ [] := linesOf_ne_nil (by simp)
+              rw [hbb] at ihr
+              simp only
+              rw [hcons, ← ihr]
+              cases hl : linesOf (x :: xs) with
+              | nil => exact absurd hl hne'
+              | cons y ys => rfl
+          · simp [hc, linesOf_nil]
+      · have hl := (cutAt_none h).1
+        rw [hl] at h
+        have hcl : cutLine p = (p, []) := by simp [cutLine, h]
+        rw [hcl, linesOf_none h hemp]
+        simp only [List.length_nil, Nat.sub_zero, List.take_length, blockBytes_nil, List.append_nil]
+        unfold leadingBlock
+        simp only [isBlank, isComment, leadingBlock]
+        by_cases hb : (trimSpace p).isEmpty = true
+        · simp [hb, linesOf_none h hemp]
+        · by_cases hc : hasPrefix slashes (trimSpace p) = true
+          · simp [hb, hc, linesOf_nil]
+          · simp [hb, hc, linesOf_nil]
+
+/-! ### pass 2 -/
+
+theorem bne_none_some_false : ((none : Option Bool) != some false) = true := by decide
+theorem bne_some_true_some_false : ((some true : Option Bool) != some false) = true := by decide
+theorem bne_some_false_some_false : ((some false : Option Bool) != some false) = false := by decide
+
+theorem pass2_spec (U : Nat → Bool) (tags : Tags) : ∀ (n : Nat) (p : Bytes) (allok : Bool), p.length ≤ n →
+    pass2 U tags n p allok = (allok && (linesOf p).all (fun l => buildLine U tags l != some false)) := by
+  intro n
+  induction n with
+  | zero =>
+    intro p allok hp
+    have : p = [] := List.eq_nil_of_length_eq_zero (by omega)
+    subst this
+    simp [pass2, linesOf_nil]
+  | succ n ih =>
+    intro p allok hp
+    unfold pass2
+    by_cases hemp : p = []
+    · subst hemp; simp [linesOf_nil]
+    · have hne : p.isEmpty = false := by cases p <;> simp_all
+      simp only [hne, Bool.false_eq_true, if_false]
+      rcases cutAt_cases 10 p with ⟨l, r, h⟩ | ⟨l, h⟩
+      · have hp' := (cutAt_some h).1
+        have hcl : cutLine p = (l, r) := by simp [cutLine, h]
+        have hrn : r.length ≤ n := by rw [hp'] at hp; simp at hp; omega
+        rw [hcl, linesOf_some h]
+        simp only [List.all_cons]
+        cases hbl : buildLine U tags l with
+        | none => simp [ih r allok hrn, bne_none_some_false]
+        | some v => cases v <;> simp [ih r _ hrn, bne_some_true_some_false]
+      · have hl := (cutAt_none h).1
+        rw [hl] at h
+        have hcl : cutLine p = (p, []) := by simp [cutLine, h]
+        rw [hcl, linesOf_none h hemp]
+        simp only [List.all_cons, List.all_nil, Bool.and_true]
+        cases hbl : buildLine U tags p with
+        | none => simp [ih [] allok (by simp), linesOf_nil, bne_none_some_false]
+        | some v => cases v <;> simp [ih [] _ (by simp), linesOf_nil, bne_some_true_some_false]
+
+theorem buildLine_spec (U : Nat → Bool) (tags : Tags) (l : Bytes) :
+    buildLine U tags l = (plusBuildArgs l).map (fun args => evalLine tags (parseLine U args)) := by
+  have h1 : sbTokensOr = true := rfl
+  unfold buildLine plusBuildArgs isComment commentText
+  rw [slashslash_eq, plusBuild_eq]
+  by_cases hc : hasPrefix slashes (trimSpace l) = true
+  · simp only [hc, Bool.not_true, Bool.false_eq_true, if_false, true_and]
+    have : slashes.length = 2 := rfl
+    rw [this]
+    cases hline : trimSpace (List.drop 2 (trimSpace l)) with
+    | nil => simp
+    | cons c rest =>
+      by_cases h43 : c = 43
+      · subst h43
+        simp only [List.head?_cons, if_true, ne_eq, not_true_eq_false, if_false]
+        cases hf : fields (43 :: rest) with
+        | nil => simp
+        | cons f0 toks =>
+          simp only
+          by_cases hf0 : f0 = plusBuildWord
+          · simp only [hf0, if_true, Option.map_some, Option.some.injEq]
+            unfold lineOK evalLine parseLine
+            rw [h1]
+            simp only [if_true, List.any_map]
+            congr 1
+            funext t
+            simp [matchTags_eq]
+          · simp [hf0]
+      · simp [h43]
+  · simp [hc]
+
+theorem shouldBuild_eq_spec (U : Nat → Bool) (c : Bytes) (tags : Tags) :
+    shouldBuild U c tags = shouldBuildSpec U c tags := by
+  unfold shouldBuild shouldBuildSpec
+  have hp1 := pass1_blockBytes c.length c [] 0 (Nat.le_refl _) (Nat.le_refl _)
+  simp only [List.nil_append, List.take_zero] at hp1
+  have htake : c.take (pass1 c.length c.length c 0) = blockBytes c.length c := by
+    rw [hp1]; split <;> simp_all
+  simp only [htake]
+  rw [pass2_spec U tags _ _ true (Nat.le_refl _), linesOf_blockBytes _ _ (Nat.le_refl _)]
+  simp only [Bool.true_and]
+  congr 1
+  funext l
+  rw [buildLine_spec]
+  unfold lineSatisfied
+  cases plusBuildArgs l with
+  | none => simp
+  | some args =>
+    simp only [Option.map_some]
+    generalize evalLine tags (parseLine U args) = v
+    cases v <;> decide
+
 end GIV.C19
